@@ -59,6 +59,8 @@ func (m *Model) isMutexField(a AddrPath) bool {
 }
 
 // stripeType is the element type of the table's counter slice (the slice field whose element has no embedded struct).
+func (m *Model) StripeType() string { return m.stripeType() }
+
 func (m *Model) stripeType() string {
 	for _, mm := range m.Maps {
 		if obj := m.P.Xsync.Pkg.Scope().Lookup(mm.TableT); obj != nil {
